@@ -55,8 +55,13 @@ func (g Generate) Run() error {
 		)
 	}
 	includePaths := append([]string{g.InputDir}, g.Include...)
-	for _, pathAndMaybePkg := range includePaths {
-		path, pkgPrefix, hasPkgPrefix := strings.Cut(pathAndMaybePkg, "=")
+	for i, pathAndMaybePkg := range includePaths {
+		// The input dir (first entry) is a plain path: only the -include entries that follow it
+		// carry an optional "=package" suffix. A "=" in the name of the input dir belongs to the name.
+		path, pkgPrefix, hasPkgPrefix := pathAndMaybePkg, "", false
+		if i > 0 {
+			path, pkgPrefix, hasPkgPrefix = strings.Cut(pathAndMaybePkg, "=")
+		}
 		includePath, err := filepath.Abs(path)
 		if err != nil {
 			return err
